@@ -4,6 +4,7 @@ package cards
 
 import (
 	"sort"
+	"strings"
 
 	"github.com/weedbox/pokerface/combination"
 )
@@ -145,4 +146,47 @@ func Table(short bool) ([]combination.Combination, []int) {
 		return combination.CombinationPowerShortDeck, OrderShort
 	}
 	return combination.CombinationPowerStandard, OrderStandard
+}
+
+// Admissible enumerates the admissible five-card selections itself.
+func Admissible(hole, board []string, required int) [][]string {
+	var out [][]string
+	if required == 0 {
+		all := append(append([]string{}, hole...), board...)
+		chooseK(all, 5, func(sel []string) { out = append(out, append([]string{}, sel...)) })
+		return out
+	}
+	chooseK(hole, required, func(h []string) {
+		hh := append([]string{}, h...)
+		chooseK(board, 5-required, func(b []string) {
+			out = append(out, append(append([]string{}, hh...), b...))
+		})
+	})
+	return out
+}
+
+func chooseK(xs []string, k int, f func([]string)) {
+	if k > len(xs) {
+		return
+	}
+	sel := make([]string, 0, k)
+	var rec func(start int)
+	rec = func(start int) {
+		if len(sel) == k {
+			f(sel)
+			return
+		}
+		for i := start; i < len(xs); i++ {
+			sel = append(sel, xs[i])
+			rec(i + 1)
+			sel = sel[:len(sel)-1]
+		}
+	}
+	rec(0)
+}
+
+func setKey(cards []string) string {
+	c := append([]string{}, cards...)
+	sort.Strings(c)
+	return strings.Join(c, "")
 }
